@@ -26,7 +26,7 @@ ASSUMPTIONS = ['domain as stated by the property: rectangular tables, unique key
 KINDS = ['melt-recast', 'recast-direct', 'melt', 'transpose', 'flatten', 'unflatten-period', 'pivot', 'unpack', 'unpackdict', 'capture', 'split', 'splitdown',
          'dicts-roundtrip', 'columns-roundtrip']
 REQUIRED = (['views-read-twice', 'views-re-read-after-an-in-place-edit-of-the-source', 'columns-with-filler', 'regex-flags', 'unpackdict:keys-from-a-sample-shorter-than-the-table'] + ['kind:' + k for k in KINDS] + ['none-key', 'compound-key', 'key-not-leading', 'one-column', 'period=1', 'period=width',
-            'pivot-missing-pair', 'field-by-index', 'include-original', 'explicit-variables-permuted', 'fromdicts-sample<nrows', 'fromdicts-generator:lagging-iterator', 'melt:key-inferred-from-variables', 'recast:sample-shorter-than-the-molten-table'])
+            'pivot-missing-pair', 'field-by-index', 'include-original', 'explicit-variables-permuted', 'fromdicts-sample<nrows', 'fromdicts-generator:lagging-iterator', 'melt:key-inferred-from-variables', 'recast:sample-shorter-than-the-molten-table', 'default-sample-size:first-appearance-inside-the-sample', 'default-sample-size:first-appearance-beyond-the-sample'])
 VALS = [None, 0, 1, 2.5, 'a', 'b', '', b'x', (1, 2), gen.D(2020, 1, 1), True]
 KEYS = [None, 1, 2, 3, 'a', 'b', b'a', (1, 2), 2.5, gen.D(2020, 1, 1), 0, '', ()]
 NAMES = ['alpha', 'beta', 'gamma', 'delta', 'eps', 'al', 'eta']      # 'al' / 'eta' are substrings of other names on purpose
@@ -34,6 +34,11 @@ NAMES = ['alpha', 'beta', 'gamma', 'delta', 'eps', 'al', 'eta']      # 'al' / 'e
 
 def cases(ctx):
     rng = ctx.rng('cases')
+    # the documented default sample sizes (1000 rows / records): a variable, key or field that first appears just below, at and
+    # just above the default is in the header exactly when it lies within the sample
+    for op in ('recast', 'unpackdict', 'fromdicts-list', 'fromdicts-generator'):
+        for p in (998, 999, 1000, 1001):
+            yield {'kind': 'default-sample', 'op': op, 'first_at': p}
     for i in range(ctx.pick(65000, 900000)):
         kind = KINDS[i % len(KINDS)]
         nf = rng.randint(1, 5)
@@ -166,8 +171,46 @@ def judge(case, ctx):
             ctx.seen('views-re-read-after-an-in-place-edit-of-the-source', util.EDITED[0] - e0)
 
 
+def _judge_default_sample(case, ctx):
+    op, p = case['op'], case['first_at']
+    n = 1004
+    ctx.mark_nontrivial()
+    inside = p < 1000          # data rows / records 0..999 make up the default sample
+    if op == 'recast':
+        molten = [['id', 'variable', 'value']] + [[i, 'late' if i == p else ('a' if i % 2 else 'b'), i] for i in range(n)]
+        got = util.attempt_rows(lambda: petl.recast(molten))
+        what = 'recast() default samplesize'
+        want_cell = lambda r, h: r[h.index('late')] == p if r[0] == p else r[h.index('late')] is None      # noqa: E731
+    elif op == 'unpackdict':
+        t = [['id', 'd']] + [[i, dict({'a': i}, **({'late': i} if i >= p else {}))] for i in range(n)]
+        got = util.attempt_rows(lambda: petl.unpackdict(t, 'd'))
+        what = 'unpackdict() default samplesize'
+        want_cell = lambda r, h: r[h.index('late')] == (r[0] if r[0] >= p else None)      # noqa: E731
+    else:
+        recs = [dict({'id': i, 'a': i}, **({'late': i} if i >= p else {})) for i in range(n)]
+        src = recs if op == 'fromdicts-list' else (x for x in recs)
+        got = util.attempt_rows(lambda: petl.fromdicts(src))
+        what = 'fromdicts() default sample'
+        want_cell = lambda r, h: r[h.index('late')] == (r[h.index('id')] if r[h.index('id')] >= p else None)      # noqa: E731
+    if isinstance(got, util.Raised):
+        return {'kind': 'exception', 'op': what, 'detail': got.text, 'where': got.where}
+    h = list(got[0])
+    ctx.seen('default-sample-size:first-appearance-%s-the-sample' % ('inside' if inside else 'beyond'))
+    if ('late' in h) != inside:
+        return {'kind': 'result-differs', 'op': what, 'first-appearance-at-row': p, 'expected-in-header': inside, 'observed-header': h}
+    if len(got) - 1 != n:
+        return {'kind': 'result-differs', 'op': what, 'expected-rows': n, 'observed-rows': len(got) - 1}
+    if inside and not all(want_cell(r, h) for r in got[1:]):
+        bad = [r for r in got[1:] if not want_cell(r, h)][:3]
+        return {'kind': 'result-differs', 'op': what, 'first-appearance-at-row': p, 'rows-with-a-wrong-cell': bad}
+    return None
+
+
 def _judge(case, ctx):
     kind = case['kind']
+    if kind == 'default-sample':
+        ctx.op('kind:default-sample')
+        return _judge_default_sample(case, ctx)
     ctx.op('kind:' + kind)
     out = []
     if 'table' in case:
